@@ -35,6 +35,11 @@ def make_db(name):
             MacroSpec('mm', [LatexArgumentSpec('[', parsing_state_delta=ParsingStateDeltaEnterMathMode()),
                              LatexArgumentSpec('{', parsing_state_delta=ParsingStateDeltaEnterMathMode())]),
             MacroSpec('m2', '{{'),
+            # a mode-changing argument FOLLOWED by a plain one (the plain one inherits the macro's own mode)
+            MacroSpec('mx', [LatexArgumentSpec('{', parsing_state_delta=ParsingStateDeltaLeaveMathMode()),
+                             LatexArgumentSpec('{')]),
+            MacroSpec('my', [LatexArgumentSpec('{', parsing_state_delta=ParsingStateDeltaEnterMathMode()),
+                             LatexArgumentSpec('[')]),
             MacroSpec('mp', [LatexArgumentSpec('{'),       # second mandatory argument must follow WITHOUT whitespace
                              LatexArgumentSpec(LatexStandardArgumentParser('{', allow_pre_space=False))]),
             MacroSpec(',', ['r()']),          # required delimited argument after a NON-alphabetic macro name:
@@ -86,7 +91,7 @@ SYM_DEFAULT_EXTRA = ['\\textbf', '\\frac', '\\item', '\\\\', '\\verb', '|', '\\b
                      '\\begin{lstlisting}', '\\end{lstlisting}', '\\section', '\\newcommand', '\\includegraphics',
                      '\\\'', '\\"', '\\begin{tabular}', '\\end{tabular}', '\\begin{align*}', '\\end{align*}',
                      '\\left', '\\right', '(', ')', '\t', '\\documentclass', '\\ ', '\\hspace']
-SYM_CUSTOM_EXTRA = ['\\,', '\\mp', '\\ma', '\\mb', '\\mc', '\\md', '\\mv', '\\mw', '\\mz', '\\mt', '\\mm', '\\m2', '\\mq', '\\\\',
+SYM_CUSTOM_EXTRA = ['\\,', '\\mp', '\\mx', '\\my', '\\ma', '\\mb', '\\mc', '\\md', '\\mv', '\\mw', '\\mz', '\\mt', '\\mm', '\\m2', '\\mq', '\\\\',
                     '\\begin{ea}', '\\end{ea}', '\\begin{eb}', '\\end{eb}', '\\begin{em}', '\\end{em}',
                     '\\begin{e*}', '\\end{e*}', '!!', '@', '--', '---', '+', '(', ')', '<', '>', '|', '\n\n', '$$',
                     '%c\n', 'b', '!', '\\unknown', '\\begin{zz}', '\\end{zz}']
@@ -189,9 +194,9 @@ def gen_item(rnd, ctx, depth, math):
     else:
         if k < 0.80:
             m = rnd.choice(['\\ma', '\\mb', '\\mc', '\\md', '\\mv', '\\mw', '\\mz', '\\mt', '\\mm', '\\m2', '\\mq',
-                            '\\\\', '\\unk', '\\,', '\\mp'])
+                            '\\\\', '\\unk', '\\,', '\\mp', '\\mx', '\\my'])
             sig = {'\\ma': '*[{', '\\mb': '{[', '\\mc': '*+{', '\\md': '(<', '\\mv': 'v', '\\mw': 'V[', '\\mt': '{',
-                   '\\mm': '[{', '\\m2': '{{', '\\mq': '[', '\\\\': '*[', '\\,': '(', '\\mp': '{{'}.get(m, '')
+                   '\\mm': '[{', '\\m2': '{{', '\\mq': '[', '\\\\': '*[', '\\,': '(', '\\mp': '{{', '\\mx': '{{', '\\my': '{['}.get(m, '')
             out = m
             if not sig and m[-1].isalpha():
                 out += rnd.choice([' ', '{}', '\n'])
